@@ -136,43 +136,90 @@ def rule_r1(ctx: Ctx) -> None:
 
 
 def rule_r2_r3(ctx: Ctx) -> None:
-    ctx.rule("C14.R2", "header = byte length of the serialized inner object (writer, both copies); payload = 8 x header (reader, both copies)", min_instances=4)
-    ctx.rule("C14.R3", "the inner object is decoded from the bounded sub-reader, created from the header value, and the branch ends there", min_instances=2)
-    for fname in ("_serialize_composite", "serialize"):
-        fn = ctx.func(SD + "." + fname)
-        src = norm(fn.node).replace("\n", " ")
-        hdr = [c for c in calls_in(fn.node) if isinstance(c.func, ast.Attribute) and c.func.attr == "write_bits" and ("delimiter_header_type" in norm(c) or "header_bit_length" in norm(c))]
-        good = len(hdr) == 1 and norm(hdr[0].args[0]) in ("len(inner_bytes)", "inner_byte_length")
-        if good and norm(hdr[0].args[0]) == "inner_byte_length":
-            good = "inner_byte_length = len(inner_bytes)" in src
-        good = good and re.search(r"inner_bytes = (temp_writer|inner_writer)\.finish\(\)", src) is not None and re.search(r"_serialize_composite\((temp_writer|inner_writer), schema\.inner_type, ", src) is not None
-        ctx.check(good, fn.short, norm(hdr[0]) if hdr else "?", "the header announces exactly the bytes that follow, whatever the revision's extent", fn.where(), rule="C14.R2")
-    for fname in ("_deserialize_composite", "deserialize"):
-        fn = ctx.func(SD + "." + fname)
-        body = None
-        for st in ast.walk(fn.node):
-            if isinstance(st, ast.If) and norm(st.test) == "isinstance(schema, DelimitedType)":
-                body = st.body
-        if body is None:
-            raise AnalysisError("%s: DelimitedType branch not found" % fname)
-        if fname == "deserialize":
-            # the header is processed only when requested
-            inner_if = [st for st in body if isinstance(st, ast.If) and norm(st.test) == "with_delimiter_header"]
-            if len(inner_if) != 1:
-                raise AnalysisError("deserialize: with_delimiter_header branch not found")
-            body = inner_if[0].body
-        t = Tracer()
-        ev = show_all(t.events(body))
-        want = "BITS(schema.delimiter_header_type.bit_length); SUBREADER(payload_byte_length * 8); EMIT@sub_reader(schema.inner_type)"
-        want2 = "BITS(schema.delimiter_header_type.bit_length); SUBREADER(reader.read_bits(schema.delimiter_header_type.bit_length) * 8); EMIT@sub_reader(schema.inner_type)"
-        src = norm(ast.Module(body=list(body), type_ignores=[])).replace("\n", " ")
-        hdr_def = re.search(r"payload_byte_length = reader\.read_bits\((schema\.delimiter_header_type\.bit_length|header_bit_length)\)", src) is not None
-        ctx.check(ev in (want, want2) and hdr_def, fn.short + "[DelimitedType]", ev, "the reader confines the nested object to 8 x header bits", fn.where(), {"expected": want}, rule="C14.R2")
-        last = body[-1]
-        ends = isinstance(last, ast.Return) and isinstance(last.value, ast.Call) and dotted(last.value.func) == "_deserialize_composite" and [norm(a) for a in last.value.args] == ["sub_reader", "schema.inner_type"]
-        sub_def = [st for st in body if isinstance(st, ast.Assign) and norm(st.targets[0]) == "sub_reader"]
-        ok_sub = len(sub_def) == 1 and norm(sub_def[0].value) == "reader.bounded_subreader(payload_bit_length)" and "payload_bit_length = payload_byte_length * 8" in src
-        ctx.check(ends and ok_sub, fn.short + "[DelimitedType]", "return _deserialize_composite(sub_reader, schema.inner_type)", "fields unknown to the reader are skipped (the parent already moved past the object) and fields unknown to the writer read as zeros (reads beyond the limit)", fn.where(), rule="C14.R3")
+    """both copies of the delimited writer / reader, from the abstract runs of the codec (sa/codec.py)"""
+    from .. import codec as C
+    from . import codec_common as K
+
+    ctx.rule("C14.R2", "header = byte length of the serialized inner object (writer, both copies); payload window = 8 x header (reader, both copies)", min_instances=4)
+    ctx.rule("C14.R3", "the inner object is decoded from the bounded sub-reader created from the header value, its value is the result, and nothing else is consumed from the parent in that branch", min_instances=2)
+    S = K.schemas(ctx)
+    where = "pydsdl/_serdes.py"
+    for d in S["delimited"]:
+        inner = d.inner_type
+        val = K.value_for(inner) if inner._kind_ == "StructureType" else {inner.fields[0].name: "V_" + inner.fields[0].name}
+        for fname, kw in (("_serialize_composite", {}), ("serialize", {"with_delimiter_header": True})):
+            wr = K.only(K.writer_runs(ctx, fname, d, val, **kw), "%s of %s" % (fname, d.name))
+            if wr.raised:
+                raise AnalysisError("%s of %s raised %s" % (fname, d.name, wr.raised))
+            writers: List[str] = []
+            for ev in wr.events:
+                if ev[0] == "NEW" and ev[1] not in writers:
+                    writers.append(ev[1])
+            outer = "w" if fname == "_serialize_composite" else getattr(wr.result, "origin", None)
+            inners = [x for x in writers if x != outer]
+            evs = C.normalize(wr.events, True)
+            o_ev = C.of_io(evs, outer) if outer else []
+            good = outer is not None and len(inners) == 1 and o_ev == [("BITS", 32, ("byte-length-of", inners[0])), ("COPY", inners[0])]
+            # the inner writer received the inner type's encoding of the same value, whatever the extent
+            i_ev = C.of_io(C.normalize(wr.events), inners[0]) if len(inners) == 1 else []
+            alone = K.only(K.writer_runs(ctx, "_serialize_composite", inner, val), "writer of %s alone" % inner.name)
+            good = good and i_ev == C.of_io(C.normalize(alone.events), "w")  # whether that encoding is the Specification's is C06's question
+            ctx.count()
+            ctx.check(good, "_serdes.%s[DelimitedType %s]" % (fname, d.name), C.show(o_ev), "the header announces exactly the bytes that follow, whatever the revision's extent", where, {"inner": C.show(i_ev)}, rule="C14.R2")
+        for fname, kw in (("_deserialize_composite", {}), ("deserialize", {"with_delimiter_header": True})):
+            runs = [r for r in K.reader_runs(ctx, fname, d, **kw) if not r.raised]
+            if not runs:
+                raise AnalysisError("%s of %s: no completing run" % (fname, d.name))
+            bad2, bad3 = [], []
+            for r in runs:
+                evs = C.normalize(r.events, True)
+                ios: List[str] = []
+                for ev in evs:
+                    if ev[0] != "REPEAT" and len(ev) > 1 and isinstance(ev[1], str) and ev[1] not in ios:
+                        ios.append(ev[1])
+                parent = ios[0] if ios else "?"
+                p_ev = C.of_io(evs, parent)
+                subs = [e for e in p_ev if e[0] == "SUB"]
+                hdr = [e for e in p_ev if e[0] == "BITS"]
+                ctx.count()
+                ok2 = len(hdr) == 1 and hdr[0][1] == 32 and len(subs) == 1
+                if ok2:
+                    widths = set()
+                    for h in (0, 1, 5, 255, 2**32 - 1):
+                        try:
+                            widths.add(C.eval_abs(C._subst_atoms(subs[0][1], {"read": h}), {}) == 8 * h)
+                        except (KeyError, TypeError):
+                            widths.add(False)
+                    ok2 = widths == {True} and subs[0][1] != 8 and ("read", hdr[0][2]) in _atoms(subs[0][1])
+                if not ok2:
+                    bad2.append(C.show(p_ev))
+                # R3: after the sub-reader is made the parent is not touched; everything else happens on the sub-reader; the result
+                # is what the inner decoder returned
+                after = p_ev[p_ev.index(subs[0]) + 1 :] if subs else ["?"]
+                others = [io for io in ios if io != parent and not io.startswith(parent + "/sub")]
+                sub_ev = C.of_io(C.normalize(r.events), parent + "/sub")
+                idx = next((v for e, v in r.assumptions if e[0] == "index"), 0)
+                alone_r = [x for x in K.reader_runs(ctx, "_deserialize_composite", inner) if not x.raised]
+                if inner._kind_ == "UnionType":
+                    alone_r = [x for x in alone_r if any(e[0] == "index" and v == idx for e, v in x.assumptions)]
+                want_sub = C.of_io(C.normalize(alone_r[0].events), "r") if alone_r else ["?"]  # as the inner type is decoded on its own (C06 compares that with the Specification)
+                keys = list(r.result) if isinstance(r.result, dict) else None
+                want_keys = [f.name for f in inner.fields_except_padding] if inner._kind_ == "StructureType" else None
+                ok3 = not after and not others and sub_ev == want_sub and (want_keys is None or keys == want_keys)
+                if not ok3:
+                    bad3.append({"parent after the window": C.show(after) if after != ["?"] else "?", "sub-reader": C.show(sub_ev), "result keys": keys})
+            ctx.check(not bad2, "_serdes.%s[DelimitedType %s]" % (fname, d.name), "header, then a window of 8 x header bits", "the reader confines the nested object to 8 x header bits", where, bad2[:2], rule="C14.R2")
+            ctx.check(not bad3, "_serdes.%s[DelimitedType %s]" % (fname, d.name), "inner object decoded from the window; the branch ends there", "fields unknown to the reader are skipped (the parent already moved past the object) and fields unknown to the writer read as zeros (reads beyond the limit)", where, bad3[:2], rule="C14.R3")
+
+
+def _atoms(e: Any) -> set:
+    out = set()
+    if isinstance(e, tuple):
+        if e and e[0] in ("read", "remaining", "byte-length-of"):
+            out.add(e)
+        for x in e:
+            out |= _atoms(x)
+    return out
 
 
 def rule_r4(ctx: Ctx) -> None:
@@ -204,8 +251,36 @@ def rule_r4(ctx: Ctx) -> None:
 
     touching = {name: content_uses(m) for name, m in rd.methods.items()}
     touching = {k: v for k, v in touching.items() if v}
-    if "read_bits" not in touching:
+    # private helpers called only from read_bits (or from such helpers) are part of read_bits: their reads are judged in the
+    # expanded body of read_bits below
+    def callers_of(name: str) -> Set[str]:
+        out = set()
+        for n2, m2 in rd.methods.items():
+            for c in calls_in(m2.node, include_nested=True):
+                if isinstance(c.func, ast.Attribute) and c.func.attr == name and norm(c.func.value) == "self":
+                    out.add(n2)
+        for fn2 in repo.all_functions().values():
+            if fn2.cls is not rd and any(isinstance(c.func, ast.Attribute) and c.func.attr == name for c in calls_in(fn2.node, include_nested=True)):
+                out.add(fn2.short)
+        return out
+
+    part_of_read_bits: Set[str] = set()
+    changed = True
+    while changed:
+        changed = False
+        for name in list(touching):
+            if name == "read_bits" or name in part_of_read_bits or not name.startswith("_") or name.startswith("__"):
+                continue
+            cs = callers_of(name)
+            if cs and cs <= ({"read_bits"} | part_of_read_bits):
+                part_of_read_bits.add(name)
+                changed = True
+    for name in part_of_read_bits:
+        touching.pop(name, None)
+    rb_inl = ctx.inl(rd.methods["read_bits"], keep=("read_bits",)) if "read_bits" in rd.methods else None
+    if rb_inl is None or not any(isinstance(n, ast.Attribute) and n.attr == "_data" for n in ast.walk(rb_inl)):
         raise AnalysisError("_BitReader.read_bits no longer reads the buffer: the anchor of C14.R4 / C07.R3 moved")
+    touching["read_bits"] = [n for n in ast.walk(rb_inl) if isinstance(n, ast.Attribute) and n.attr == "_data" and norm(n.value) == "self"]
     for name, uses in sorted(touching.items()):
         m = rd.methods[name]
         if name == "read_bits":
@@ -218,7 +293,7 @@ def rule_r4(ctx: Ctx) -> None:
     # in read_bits the limit check precedes any buffer access
     rb = rd.methods["read_bits"]
     first_data = min((n.lineno for n in touching["read_bits"]), default=10**9)
-    limit_if = [st for st in body_without_docstring(rb.node) if isinstance(st, ast.If) and isinstance(st.test, ast.Compare) and isinstance(st.test.ops[0], ast.IsNot) and norm(st.test.left) in limit_fields and norm(st.test.comparators[0]) == "None"]
+    limit_if = [st for st in body_without_docstring(rb_inl) if isinstance(st, ast.If) and isinstance(st.test, ast.Compare) and isinstance(st.test.ops[0], ast.IsNot) and norm(st.test.left) in limit_fields and norm(st.test.comparators[0]) == "None"]
     ctx.check(len(limit_if) == 1 and limit_if[0].lineno < first_data, rb.short, "limit handled before the buffer is touched", "out-of-limit reads yield zeros instead of the container's bytes", rb.where())
     # the decoder's view of the reader
     used: Dict[str, Set[str]] = {}
@@ -242,8 +317,8 @@ def rule_r4(ctx: Ctx) -> None:
 
 
 def run(ctx: Ctx) -> None:
-    rule_r1(ctx)
-    rule_r2_r3(ctx)
-    rule_r4(ctx)
+    ctx.attempt(rule_r1, ctx)
+    ctx.attempt(rule_r2_r3, ctx)
+    ctx.attempt(rule_r4, ctx)
     ctx.assume("offset accounting of read_bits / bounded_subreader (C07.R3, C07.R5) and the composite alignment of 8 (C02.R4)")
     ctx.undecided("field-value preservation across revisions for all pairs and values (numerical)")
